@@ -38,6 +38,7 @@ type c10Scenario struct {
 	Steps              []c10Step  `json:"steps"`
 	Seg                int        `json:"segmentation"`
 	LatencyNs          int64      `json:"latency_ns"`
+	ResumeAtEnd        bool       `json:"loss_and_resumption_at_the_end,omitempty"` // the session is lost and resumed; <resumed/> repeats the last acknowledged h
 }
 
 func init() {
@@ -57,6 +58,7 @@ func runC10(e *Engine, g G, o RunOpt) RunInfo {
 	if g.Pct("after-refused-resume", 20) {
 		sc.AfterRefusedResume = g.Range("old-held", 1, 4)
 	}
+	sc.ResumeAtEnd = g.Pct("resume-at-end", 25)
 	ns := g.Range("nsteps", 2, 8)
 	for i := 0; i < ns; i++ {
 		switch g.Weighted("step", 5, 5, 1, 2, 1) {
@@ -461,6 +463,38 @@ func runC10(e *Engine, g G, o RunOpt) RunInfo {
 			if len(e.Violations) > 0 {
 				break
 			}
+		}
+		if sc.ResumeAtEnd && len(e.Violations) == 0 && !raced {
+			// The connection is lost and the session resumed. The server's <resumed/> carries the h it
+			// last acknowledged: nothing new is acknowledged by it, so whatever was held stays held.
+			want := heldModel()
+			h := maxH
+			if n := len(wire()); h > n {
+				h = n
+			}
+			okScript := script
+			okScript.ResumedH = h
+			for len(s.Srv.Scripts) <= len(s.Srv.Conns) {
+				s.Srv.Scripts = append(s.Srv.Scripts, okScript)
+			}
+			s.Srv.Scripts[len(s.Srv.Conns)] = okScript
+			nd := countState(s.W.Events, xmpp.StateDisconnected)
+			s.Cli.CutAt = s.Conn.End.TotalWritten
+			s.Cli.CutErr = io.EOF
+			if !e.WaitUntilFor("lost-at-end", time.Minute, func() bool { return countState(s.W.Events, xmpp.StateDisconnected) > nd }) {
+				e.Sleep(time.Second)
+				nc := len(s.Srv.Conns)
+				err, _ := e.Call("Resume", s.W.Client.Resume)
+				if err == nil && len(s.Srv.Conns) == nc+1 && s.Srv.Conns[nc].Established == "resumed" {
+					e.Sleep(time.Second)
+					got, _ := queue()
+					if strings.Join(got, "\x00") != strings.Join(want, "\x00") {
+						e.Violate("C10", "held-stanzas-changed-by-resumption", "<resumed h='%d'/> repeats what was acknowledged before the loss: held before %s, after the resumption %s", h, shortStz(want), shortStz(got))
+					}
+					e.Probe("c10.resumed_at_end")
+				}
+			}
+			return
 		}
 		// no deadlock: a final acknowledgement is still processed
 		if len(e.Violations) == 0 {
